@@ -13,6 +13,7 @@ CONSTANTS
   DsHist = 0
   DsOps = {}
   NMon = 0
+  Neg = TRUE
   Shape = "sorted"
 SYMMETRY Sym
 INVARIANT TypeOK
